@@ -81,6 +81,15 @@ class C16(Prop):
                 yield Case('tee_hl', ('csv', (rng.choice([',', ';', '|']), rng.choice(['"', "'"]), rng.choice([0, 1, 2]),
                                               rng.random() < 0.7, enc, sink), t, aslist, k))
                 yield Case('tee_hl', ('tsv', (rng.random() < 0.7, enc, sink), t, aslist, k))
+                if t and rng.random() < 0.5:
+                    # header fields that are not text (None, numbers): the header goes through the same writer as the rows
+                    t2 = ((rng.choice([None, 1, 'foo']),) + tuple(t[0][1:]),) + tuple(t[1:])
+                    yield Case('tee_hl', ('csv', (',', '"', rng.choice([0, 2]), True, 'utf-8', sink), t2, aslist, k))
+                if rng.random() < 0.4:
+                    lossy = {'enc_errors': ['ascii', rng.choice(['replace', 'xmlcharrefreplace', 'ignore'])]}
+                    yield Case('tee_hl', ('csv', (',', '"', 0, True, 'utf-8', sink), t, aslist, k), lossy)
+                    yield Case('tee_hl', ('text', ('P', 'E', '{foo}\n', 'utf-8', sink), t, aslist, k), lossy)
+                    yield Case('tee_hl', ('html', ('cap é', False, None, None, None, '\n', 'utf-8', sink), t, aslist, k), lossy)
                 yield Case('tee_hl', ('pickle', (rng.random() < 0.7, rng.choice([-1, 0, 2, 4]), sink), t, aslist, k))
                 yield Case('tee_hl', ('text', (rng.choice([None, 'BEGIN\n', '']), rng.choice([None, 'END', '\n']),
                                                rng.choice(['{foo}\n', '{foo}|{foo!r}', 'x', '']), enc, sink), t, aslist, k))
@@ -173,7 +182,7 @@ class C16(Prop):
             t = [tuple(untuple(r)) for r in t]
             params = untuple(params)
             with tempfile.TemporaryDirectory(dir='/var/tmp') as td:
-                obs, verdict = self._run(etl, td, fmt, params, t, aslist, k)
+                obs, verdict = self._run(etl, td, fmt, params, t, aslist, k, case.meta.get('enc_errors'))
             self._store(case, verdict)
             return obs
         except Exception as e:   # noqa
@@ -205,7 +214,7 @@ class C16(Prop):
         with open(path, 'rb') as f:
             return f.read()
 
-    def _run(self, etl, td, fmt, params, t, aslist, k):
+    def _run(self, etl, td, fmt, params, t, aslist, k, enc_errors=None):
         src_rows = _as_rows(t, aslist)
         msgs = []
         enc = None
@@ -223,6 +232,9 @@ class C16(Prop):
                 teef, tof = etl.teetsv, etl.totsv
             tee_src, tee_path = self._sink(etl, td, kind, 'tee')
             to_src, to_path = self._sink(etl, td, kind, 'to')
+            if enc_errors:
+                enc = enc_errors[0]
+                kw['errors'] = enc_errors[1]
             view = teef(src_rows, tee_src, encoding=enc, write_header=wh, **kw)
             to_call = lambda: tof(_as_rows(t, aslist), to_src, encoding=enc, write_header=wh, **kw)
         elif fmt == 'pickle':
@@ -236,6 +248,9 @@ class C16(Prop):
             tee_src, tee_path = self._sink(etl, td, kind, 'tee')
             to_src, to_path = self._sink(etl, td, kind, 'to')
             kw = dict(encoding=enc, template=template, prologue=prologue, epilogue=epilogue)
+            if enc_errors:
+                enc = enc_errors[0]
+                kw.update(encoding=enc, errors=enc_errors[1])
             view = etl.teetext(src_rows, tee_src, **kw)
             to_call = lambda: etl.totext(_as_rows(t, aslist), to_src, **kw)
         elif fmt == 'html':
@@ -245,6 +260,9 @@ class C16(Prop):
             to_src, to_path = self._sink(etl, td, kind, 'to')
             kw = dict(encoding=enc, caption=caption, index_header=index_header, truncate=truncate, td_styles=tdv,
                       tr_style=trv, lineterminator=lt)
+            if enc_errors:
+                enc = enc_errors[0]
+                kw.update(encoding=enc, errors=enc_errors[1])
             view = etl.teehtml(src_rows, tee_src, **kw)
             to_call = lambda: etl.tohtml(_as_rows(t, aslist), to_src, **kw)
         elif fmt == 'progress':
@@ -291,7 +309,7 @@ class C16(Prop):
             if enc is None:
                 sink_text, to_text = tee_bytes.decode('latin-1'), to_bytes.decode('latin-1')
             else:
-                sink_text, to_text = tee_bytes.decode(enc), to_bytes.decode(enc)
+                sink_text, to_text = tee_bytes.decode(enc, 'replace'), to_bytes.decode(enc, 'replace')
         if fmt == 'progress':
             pre = re.escape(params[1])
             for line in stream.getvalue().splitlines():
@@ -315,6 +333,9 @@ class C16(Prop):
     def observe(self, case, obs):
         if case.op == 'cv_run':
             return c01().observe(case, obs)
+        if case.meta.get('enc_errors') and obs[0] == 'tu' and len(obs[1]) == 5:
+            o = obs[1]
+            return ('tu', (o[0], codec.canon(''), o[2], o[3], codec.canon('')))
         return obs
 
     def valid(self, case):
